@@ -31,6 +31,23 @@ chk("C05",
     "(octet/nibble/multi-byte labels, both roots in every case, arbitrary joining byte, leading labels) and on all short ASCII strings.",
     SMT + "; implementation vs. independent reference decoder")
 
+chk("C01",
+    "Bounded symbolic execution of every exported text/bytes/IP-consuming function of netutil, hostsfile, urlutil and stringutil with all Go run-time panic sites, "
+    "explicit panics and unwinding failures as assertions, over all byte strings up to a length bound, ARPA-shaped names, all net.IP lengths and all netip address kinds; "
+    "an API enumeration guard makes the check inconclusive when an exported function is neither driven nor excluded.",
+    SMT + "; panic sites and unwinding as assertions, no oracle",
+    "timeutil.Duration text methods are not driven (listed as excluded in the evidence).")
+
+chk("C07",
+    "Bounded symbolic execution of Record.UnmarshalText against a reference field grammar (real netip.ParseAddr and ValidateDomainName as the statement's givens), "
+    "error classification, retained names, and the MarshalText round trip, on all short ASCII lines and a hosts(5)-shaped family.",
+    SMT + "; reference field grammar + round trip")
+
+chk("C08",
+    "Bounded symbolic execution of hostsfile.Parse (real bufio.Scanner) against a line-by-line reference under enumerated reader fragmentations, and of DefaultStorage "
+    "against an association-list model with solver-decided key equalities.",
+    SMT + "; reference line splitter, fragmentation-parameterised reader stub, association-list model")
+
 _pending = "check not built yet in this session; see DESIGN.md for the plan"
 for pid in ["C01","C02","C03","C04","C05","C07","C08","C09","C10","C11","C12","C13","C14","C15","C16","C17","C18"]:
     if pid not in CHECKS:
